@@ -1046,9 +1046,13 @@ func main() {
 		step = float64(len(sys)) / float64(nSys)
 	}
 	off := cfg.Rng.Float64() * step
-	for x := off; int(x) < len(sys) && nSys > 0; x += step {
-		c := sys[int(x)]()
-		record(c, runNormal(c), "systematic")
+	// when n exceeds the product it is walked again (statuses and texts are drawn afresh)
+	for done := 0; done < nSys; {
+		for x := off; int(x) < len(sys) && done < nSys; x += step {
+			c := sys[int(x)]()
+			record(c, runNormal(c), "systematic")
+			done++
+		}
 	}
 	// 2. random frames
 	for i := 0; i < n/6-n/24; i++ {
